@@ -91,6 +91,19 @@ Theorem C18_time_decode_representable : forall date time : N,
   date < 65536 -> time < 65536 -> ts_representable (from_fat date time).
 Proof. exact from_fat_representable. Qed.
 
+(* the date half of decode-then-encode depends on the date field only, the time half on the
+   time field only: lets the model side of the correspondence check cover all 2^32 pairs
+   from 2 x 2^16 evaluations of the extracted model (driver command TX) *)
+Theorem C18_time_sweep_separable : forall date time : N,
+  from_fat date time =
+    mkTs (year_since_1970 (from_fat date 0)) (zero_indexed_month (from_fat date 0))
+         (zero_indexed_day (from_fat date 0))
+         (hours (from_fat 0 time)) (minutes (from_fat 0 time)) (seconds (from_fat 0 time)) /\
+  serialize_to_fat (from_fat date time) =
+    bind (fat_date_of (from_fat date 0))
+         (fun dt => Val (le16 (fat_time_of (from_fat 0 time)) ++ le16 dt)).
+Proof. exact time_sweep_separable. Qed.
+
 (* ------------------------------------------------------------------ *)
 (* directory entries                                                   *)
 
@@ -242,6 +255,12 @@ Proof.
   - vm_compute. reflexivity.
 Qed.
 
+Example C18_time_example :
+  date_month_field 22841 <> 0 /\ date_day_field 22841 <> 0 /\
+  from_fat 22841 49021 = mkTs 54 8 24 23 59 58 /\
+  serialize_to_fat (mkTs 54 8 24 23 59 58) = Val [125; 191; 57; 89].
+Proof. vm_compute. repeat split; intro H; discriminate H. Qed.
+
 Example C18_sfn_example :
   create_from_str [104;101;108;108;111;46;116;120;233] = Ok [72;69;76;76;79;32;32;32;84;88;233] /\
   display [72;69;76;76;79;32;32;32;84;88;233] = [72;69;76;76;79;46;84;88;233] /\
@@ -266,6 +285,7 @@ Print Assumptions C18_time_year_alias.
 Print Assumptions C18_time_fixpoints.
 Print Assumptions C18_time_encode_panics.
 Print Assumptions C18_time_decode_representable.
+Print Assumptions C18_time_sweep_separable.
 Print Assumptions C18_layout.
 Print Assumptions C18_layout_offsets.
 Print Assumptions C18_parse_layout.
